@@ -95,14 +95,14 @@ theorem sq_det1_add_det3 (F : ℝ → ℝ) (hF : Continuous F) (theta : ℝ) :
     funext x; unfold g3 g7; exact Real.sin_sq_add_cos_sq _
   rw [this, QG.Spec.integ_const]; simp
 
-/-- the cross-resonance drift (hard-coded constant-pulse closed forms, with their limits at `theta = 0`) adds up to the
-duration `a`, for every angle -/
-theorem cr_det1_add_det3 (theta t_cr : ℝ) :
-    CR.det1 theta t_cr + CR.det3 theta t_cr = CR.a t_cr := by
+/-- the two drift integrals of the cross-resonance pulse add up to its duration `a` (in units of `tg`), for every
+pulse shape and every angle -/
+theorem cr_det1_add_det3 (F : ℝ → ℝ) (hF : Continuous F) (theta t_cr : ℝ) :
+    CR.det1 F theta t_cr + CR.det3 F theta t_cr = CR.a t_cr := by
   unfold CR.det1 CR.det3
-  split_ifs with h
-  · simp
-  · field_simp
-    ring
+  rw [QG.Spec.integ_add F g3 g7 hF (by unfold g3; fun_prop) (by unfold g7; fun_prop)]
+  have : (fun x => g3 x + g7 x) = fun _ => (1 : ℝ) := by
+    funext x; unfold g3 g7; exact Real.sin_sq_add_cos_sq _
+  rw [this, QG.Spec.integ_const]; simp
 
 end QG.Lemmas.Gates
